@@ -267,6 +267,44 @@ def d_freq(ctx, rng, ds, paths, kind):
     done(ctx, "freq", argv, kind, F, distinct)
 
 
+def d_freq_noobs(ctx, rng, ds, paths, kind):
+    """forecast-only files (no obs column): one forecast-frequency curve per input, each from its own forecasts"""
+    import copy
+    ds2 = copy.deepcopy(ds)
+    for inp in ds2["inputs"]:
+        inp["has"] = [h for h in inp["has"] if h not in ("obs", "pit")]
+        inp["fmt"] = "text"
+        inp["name"] = inp["name"].rsplit(".", 1)[0] + ".txt"
+        inp["style"] = {}
+    ds2["clim"] = None
+    d = os.path.join(os.path.dirname(paths[0]), "noobs")
+    os.makedirs(d, exist_ok=True)
+    paths2 = [gen.write_input(inp, d, None) for inp in ds2["inputs"]]
+    ts = _thresholds(rng, ds, 4)
+    b = rng.choice(["within=", "within", "above", "below="])
+    argv = ["-m", "freq", "-r", ",".join(gen.fnum(t) for t in ts), "-b", b]
+    fig, case = run(ctx, paths2, argv, ds2)
+    if fig is None:
+        return
+    F = len(ds2["inputs"])
+    from vmon import refcli
+    evs = refcli.events(b, ts)
+    distinct = 0
+    for k in range(F):
+        fc = [c[3][0] for c in refmodel.valid_cases(ds2, k, [("fcst",)])]
+        ls = fig.lines(0, ds2["inputs"][k]["name"])
+        if len(ls) != 1:
+            ctx.violation("freq|series-missing", "forecast-only inputs: no curve for input %d" % k, case)
+            continue
+        if not fc:
+            continue
+        gx, gy = fig.xy(ls[0])
+        want = [sum(1 for f in fc if attach.in_documented_event(f, b, e[0], e[1])) / float(len(fc)) for e in evs]
+        compare_series(ctx, "freq", "forecast frequency per event, forecast-only input %d (bin %s)" % (k, b), gy, want, case)
+        distinct = max(distinct, len(set(gy)))
+    done(ctx, "freq-noobs", argv, kind, F, distinct)
+
+
 def d_cond(ctx, rng, ds, paths, kind):
     ts = _thresholds(rng, ds, 4)
     argv = ["-m", "cond", "-r", ",".join(gen.fnum(t) for t in ts)]
@@ -628,7 +666,7 @@ def d_error(ctx, rng, ds, paths, kind):
     done(ctx, "error", argv, kind, F, 2)
 
 
-DIAGRAMS = {"standard": d_standard, "obsfcst": d_obsfcst, "qq": d_qq, "scatter": d_scatter, "freq": d_freq, "cond": d_cond,
+DIAGRAMS = {"standard": d_standard, "obsfcst": d_obsfcst, "qq": d_qq, "scatter": d_scatter, "freq": d_freq, "freq-noobs": d_freq_noobs, "cond": d_cond,
             "hist": d_hist, "sort": d_sort, "pithist": d_pithist, "reliability": d_reliability, "discrimination": d_discrimination,
             "roc": d_roc, "performance": d_performance, "taylor": d_taylor, "error": d_error}
 
